@@ -123,6 +123,22 @@ fn probe(c: char, cfg: Cfg, out: &mut Outcome) {
                     fails.push(("probe-ascii-needle".into(), format!("prefix/postfix_match on {c:?}{c:?} with Ascii[{e:?},{e:?}] = {r:?} / {r2:?}, expected matches")));
                 }
             }
+            // a surviving non-ASCII character must not be mistaken for the ASCII character that shares its low
+            // byte (comparisons done in the byte domain): 'б' U+0431 vs '1', '中' U+4E2D vs '-'
+            if !e.is_ascii() {
+                let b = (e as u32 & 0xff) as u8;
+                if b < 0x80 && is_fixed(b as char, cfg) && !(b as char).is_whitespace() {
+                    let (l, r_) = if b == b'x' || b == b'y' { (b'v', b'w') } else { (b'x', b'y') };
+                    let hay = [l as char, c, r_ as char];
+                    let nb = [l, b, r_];
+                    let n = Utf32Str::Ascii(&nb);
+                    let h = Utf32Str::Unicode(&hay);
+                    let got = [m.fuzzy_match(h, n), m.fuzzy_match_greedy(h, n), m.substring_match(h, n), m.exact_match(h, n), m.prefix_match(h, n), m.postfix_match(h, n)];
+                    if got.iter().any(|g| g.is_some()) {
+                        fails.push(("probe-low-byte".into(), format!("[{:?},{c:?},{:?}] matched the ASCII needle {:?} (fuzzy/greedy/substring/exact/prefix/postfix = {got:?}) although {c:?} normalizes to {e:?}, not to {:?}", l as char, r_ as char, String::from_utf8_lossy(&nb), b as char)));
+                    }
+                }
+            }
             // ASCII haystack representation sees the same map
             if c.is_ascii() {
                 let hb = [c as u8, b'#'];
